@@ -2269,6 +2269,8 @@ impl QueryRouter {
         )
     }
 
+    /// Statements that can change what a cached SELECT, SIMILAR, NEIGHBORS or PATH returns:
+    /// relational, graph, vector and entity writes, and a rollback of the whole store.
     const fn is_write_statement(stmt: &Statement) -> bool {
         matches!(
             &stmt.kind,
@@ -2279,6 +2281,15 @@ impl QueryRouter {
                 | StatementKind::DropTable(_)
                 | StatementKind::CreateIndex(_)
                 | StatementKind::DropIndex(_)
+                | StatementKind::Node(_)
+                | StatementKind::Edge(_)
+                | StatementKind::Embed(_)
+                | StatementKind::Entity(_)
+                | StatementKind::GraphBatch(_)
+                | StatementKind::CypherCreate(_)
+                | StatementKind::CypherDelete(_)
+                | StatementKind::CypherMerge(_)
+                | StatementKind::Rollback(_)
         )
     }
 
